@@ -30,4 +30,24 @@ func TestCheckNodesNeverOversubscribed(t *testing.T) {
 		func(t *rapid.T) *sim.World { return sim.GenWorld(t, profile()) }, sim.JudgeNodes(false))
 }
 
+// DRA devices under eviction pressure: small clusters, contention between queues, most worlds with claims
+func contentionProfile() sim.Profile {
+	pf := sim.DefaultProfile()
+	pf.MaxNodes = 3
+	pf.MaxGroups = 8
+	pf.PRunning = 7
+	pf.PTerminating = 2
+	pf.PBinding = 2
+	pf.PFaults = 1
+	pf.MaxCycles = 3
+	pf.Contention = true
+	pf.PDRA = 7
+	return pf
+}
+
+func TestCheckDevicesUnderContention(t *testing.T) {
+	sim.CheckProperty(t, "C01", kit.Budget{Quick: 3000, Thorough: 150000},
+		func(t *rapid.T) *sim.World { return sim.GenWorld(t, contentionProfile()) }, sim.JudgeNodes(false))
+}
+
 func TestReplay(t *testing.T) { sim.ReplayProperty(t, sim.JudgeNodes(false), 20) }
